@@ -1,0 +1,67 @@
+//! Verification hooks. Compiled only with `--cfg vlsp_verif`; never part of a
+//! normal build. Provides a virtual clock for the cache and numbered statement
+//! points between the SQL statements of the cache's write operations, at which
+//! a registered callback may block, fail the operation or abort the process.
+
+use std::cell::RefCell;
+use std::sync::atomic::{AtomicBool, AtomicI64, Ordering};
+
+use crate::version::error::CacheError;
+
+static NOW_SET: AtomicBool = AtomicBool::new(false);
+static NOW_MS: AtomicI64 = AtomicI64::new(0);
+
+/// Override (Some) or restore (None) the cache's notion of "now" in milliseconds
+pub fn set_now_ms(now: Option<i64>) {
+    match now {
+        Some(ms) => {
+            NOW_MS.store(ms, Ordering::SeqCst);
+            NOW_SET.store(true, Ordering::SeqCst);
+        }
+        None => NOW_SET.store(false, Ordering::SeqCst),
+    }
+}
+
+pub fn now_override() -> Option<i64> {
+    if NOW_SET.load(Ordering::SeqCst) {
+        Some(NOW_MS.load(Ordering::SeqCst))
+    } else {
+        None
+    }
+}
+
+/// What a statement point does after the callback returns
+pub enum Action {
+    Continue,
+    /// the enclosing cache operation returns a database error
+    Fail,
+    /// the process dies here (crash point)
+    Abort,
+}
+
+type Hook = Box<dyn FnMut(&str) -> Action>;
+
+thread_local! {
+    static HOOK: RefCell<Option<Hook>> = const { RefCell::new(None) };
+}
+
+/// Register (or clear) the statement-point callback of the current thread
+pub fn set_point_hook(hook: Option<Hook>) {
+    HOOK.with(|h| *h.borrow_mut() = hook);
+}
+
+/// A numbered statement point
+pub fn point(name: &str) -> Result<(), CacheError> {
+    let action = HOOK.with(|h| match h.borrow_mut().as_mut() {
+        Some(f) => f(name),
+        None => Action::Continue,
+    });
+    match action {
+        Action::Continue => Ok(()),
+        Action::Fail => Err(CacheError::Database(rusqlite::Error::SqliteFailure(
+            rusqlite::ffi::Error::new(rusqlite::ffi::SQLITE_IOERR),
+            Some(format!("injected failure at {name}")),
+        ))),
+        Action::Abort => std::process::abort(),
+    }
+}
